@@ -91,6 +91,7 @@ def run(ctx, model_ok):
     run_session_programs(ctx)
     run_eval_then_register(ctx)
     run_config_change(ctx)
+    run_near_inputs(ctx)
     n_hist = ctx.n(150, 6000)
     cases = []
     for _ in range(n_hist):
@@ -334,6 +335,46 @@ def run_config_change(ctx):
                 ctx.oracle_fail({"class": "history-dependence:config-change", "what": f"{p_['text']!r} evaluates to {x} after lines were evaluated under another configuration, to {y} on a fresh calculator with the same configuration",
                                  "ops": [{"op": "reset"}] + setc1 + pre + setc2 + [p_, {"op": "reset"}]})
                 break
+
+
+def run_near_inputs(ctx):
+    """evaluating a line leaves nothing behind that a later, NEARLY EQUAL line could pick up: pairs of lines of one shape whose
+    quantities are both huge (beyond 2^53 / 10^12) or differ only far behind the decimal separator, evaluated one after the other on
+    one calculator (and as two lines of one text), against a fresh calculator each"""
+    rng = ctx.rng
+    SHAPES = ["{a} byte to tb", "{a} km to mm", "{a} mm to km", "{a} kg to tonne", "{a} usd to eur", "{a} * 2", "{a}% of 50", "{a} bit to byte",
+              "{a} seconds", "{a} gram to kg", "{a} inch to mm", "{a} + 1 km", "{a} usd + 1 eur"]
+    for i in range(ctx.n(80, 2000)):
+        shape = rng.choice(SHAPES)
+        k = rng.random()
+        if k < 0.4:
+            base = rng.choice([10 ** 13, 2 ** 53, 10 ** 15, 9300000000000, 10 ** 18])
+            a, b = base * rng.randint(1, 9), base * rng.randint(1, 9) + rng.choice([0, 1, 1000])
+            xs = [str(a), str(b)]
+        elif k < 0.5:
+            xs = [f"{rng.randint(1, 99)}{suf}" for suf in rng.sample(["T", "P", "Z", "Y"], 2)]
+        elif k < 0.8:
+            whole = rng.choice(["0", "1", "12", "100"])
+            z = "0" * rng.randint(5, 9)
+            xs = [f"{whole},{z}{rng.randint(1, 9)}", f"{whole},{z}{rng.randint(1, 9)}{rng.randint(1, 9)}"]
+            if rng.random() < 0.4:
+                xs[0] = whole
+        else:
+            v = rng.randint(1, 10 ** 6)
+            xs = [str(v), f"{v},000000{rng.randint(1, 4)}"]
+        if xs[0] == xs[1]:
+            continue
+        rng.shuffle(xs)
+        t1, t2 = shape.format(a=xs[0]), shape.format(a=xs[1])
+        both = C.run_impl([{"op": "reset"}, {"op": "exec", "lang": "en", "text": t1}, {"op": "exec", "lang": "en", "text": t2}, {"op": "exec", "lang": "en", "text": t1 + "\n" + t2},
+                           {"op": "reset"}, {"op": "exec", "lang": "en", "text": t2}, {"op": "reset"}])
+        second, text2, fresh = canon_lines(both[2]), canon_lines(both[3]), canon_lines(both[5])
+        ctx.seen(("near-inputs", t1, t2), True)
+        ctx.count("near-input-pairs")
+        two = (text2[0], text2[1][1:]) if isinstance(text2[1], list) else text2
+        if second != fresh or two != fresh:
+            ctx.oracle_fail({"class": "history-dependence:near-inputs", "what": f"{t2!r} evaluates to {second if second != fresh else two} after {t1!r} was evaluated, to {fresh} on a fresh calculator",
+                             "ops": [{"op": "reset"}, {"op": "exec", "lang": "en", "text": t1}, {"op": "exec", "lang": "en", "text": t2}, {"op": "reset"}]})
 
 
 def run_session_programs(ctx):
